@@ -246,7 +246,7 @@ func (env *SEnv) tr(e *SExpr) *SVal {
 		switch xt := x.Go.Underlying().(type) {
 		case *types.Slice:
 			key, _ := vc.elemKey(xt.Elem())
-			r := &SVal{T: Select(Select(vc.heapGet(env.cur, key), vc.slArr(x.T)), vc.iAdd(vc.slOff(x.T), ix)), Go: xt.Elem()}
+			r := &SVal{T: env.ground(Select(Select(vc.heapGet(env.cur, key), vc.slArr(x.T)), vc.iAdd(vc.slOff(x.T), foldInt(ix)))), Go: xt.Elem()}
 			env.heapReadInv(r)
 			return r
 		case *types.Array:
@@ -336,7 +336,7 @@ func (env *SEnv) pkgObject(obj types.Object) *SVal {
 		if spkg != nil {
 			if g, ok := spkg.Members[o.Name()].(*ssa.Global); ok {
 				key, _ := vc.globalKey(g)
-				return &SVal{T: vc.heapGet(env.cur, key), Go: o.Type()}
+				return &SVal{T: env.ground(vc.heapGet(env.cur, key)), Go: o.Type()}
 			}
 		}
 	}
@@ -388,7 +388,7 @@ func (env *SEnv) selectExpr(e *SExpr) *SVal {
 		for i := 0; i < st.NumFields(); i++ {
 			if st.Field(i).Name() == e.Op {
 				key, _ := vc.fieldKey(p.Elem(), i)
-				r := &SVal{T: Select(vc.heapGet(env.cur, key), x.T), Go: st.Field(i).Type()}
+				r := &SVal{T: env.ground(Select(vc.heapGet(env.cur, key), x.T)), Go: st.Field(i).Type()}
 				env.heapReadInv(r)
 				return r
 			}
@@ -1073,7 +1073,15 @@ func (env *SEnv) callUF(sf *SpecFunc, avs []*SVal) *SVal {
 	for _, k := range info.heapKeys {
 		args = append(args, vc.heapGet(env.cur, k))
 	}
-	for _, a := range avs {
+	for i, a := range avs {
+		// name compound arguments so that repeated unfolding does not duplicate them (linear instead of exponential size)
+		if len(a.T.Args) > 0 && !mentionsBound(a.T) && a.T.Op != "mk-slice" {
+			if _, lit := intLitVal(a.T); !lit {
+				nt := vc.define("ufarg", a.T)
+				avs[i] = &SVal{T: nt, Go: a.Go}
+				a = avs[i]
+			}
+		}
 		args = append(args, a.T)
 	}
 	app := App(smtName(info.name), info.res, args...)
@@ -1184,4 +1192,15 @@ func (env *SEnv) heapReadInv(v *SVal) {
 	}
 	vc.declSeen[key] = true
 	vc.facts = append(vc.facts, vc.typeInv(v.T, v.Go, env.cur))
+}
+
+// ground replaces a read of a dumped table cell (in the entry heap) by its literal value.
+func (env *SEnv) ground(t *Term) *Term {
+	if env.vc.groundVals == nil || env.vc.noGround {
+		return t
+	}
+	if v, ok := env.vc.groundVals[t.String()]; ok {
+		return v
+	}
+	return t
 }
